@@ -47,3 +47,74 @@ Example C04_demo_partway :
   match hrun default_cfg vars h [HTransfer 3 5 (uL 10)] with (r :: _, _, _) => exists l, r = Ok l | _ => False end.
 Proof. vm_compute. split; [reflexivity|]. split; [eexists; split; reflexivity | eexists; reflexivity]. Qed.
 Print Assumptions C04_demo_partway.
+
+(* ---- the object-level model computes the values of the value-level model (HeapRefine.v): on a heap in which the operands are
+   represented ([cont_at], [plate_at]; a slice cell pointing at the plate), each operation returns -- at new addresses -- objects
+   representing exactly the results of Container.transfer / Plate.c_to_p / p_to_c / p_to_p / p_to_p_same / premove / pfill_to /
+   remove / fill_to / dilute, and fails with the same error otherwise.  So Heap.v is a refinement of the model the other
+   properties are proved about, not a second transcription of the library. ---- *)
+Require Import HeapRefine.
+Theorem C04_refines_container_transfer : forall cf h s d q cs cd, cont_at h s cs -> cont_at h d cd ->
+  match transfer cf cs cd q with
+  | Ok (x, y) => exists a b h', h_transfer_cc cf s d q h = (Ok (a, b), h') /\ ext_ex [] h h' /\ cont_at h' a x /\ cont_at h' b y /\
+                              (length h <= a)%nat /\ (length h <= b)%nat /\ a <> b
+  | Err e => exists h', h_transfer_cc cf s d q h = (Err e, h') /\ ext_ex [] h h'
+  end.
+Proof. exact h_transfer_cc_refines. Qed.
+Print Assumptions C04_refines_container_transfer.
+Theorem C04_refines_container_to_slice : forall cf h s dst q cs p rg pl,
+  cont_at h s cs -> nth_error h dst = Some (CSlice p rg) -> plate_at h p pl ->
+  match c_to_p cf cs pl rg q with
+  | Ok (c', pl') => exists a b h', h_transfer_cs cf s dst q h = (Ok (a, b), h') /\ ext_ex [] h h' /\ cont_at h' a c' /\ plate_at h' b pl' /\
+                                   (length h <= b)%nat
+  | Err e => exists h', h_transfer_cs cf s dst q h = (Err e, h') /\ ext_ex [] h h'
+  end.
+Proof. exact h_transfer_cs_refines. Qed.
+Print Assumptions C04_refines_container_to_slice.
+Theorem C04_refines_slice_to_container : forall cf h src d q cd p rg pl,
+  nth_error h src = Some (CSlice p rg) -> plate_at h p pl -> cont_at h d cd ->
+  match p_to_c cf pl rg cd q with
+  | Ok (pl', c') => exists a b h', h_transfer_sc cf src d q h = (Ok (a, b), h') /\ ext_ex [] h h' /\ plate_at h' a pl' /\ cont_at h' b c' /\
+                                   (length h <= a)%nat
+  | Err e => exists h', h_transfer_sc cf src d q h = (Err e, h') /\ ext_ex [] h h'
+  end.
+Proof. exact h_transfer_sc_refines. Qed.
+Print Assumptions C04_refines_slice_to_container.
+Theorem C04_refines_slice_to_slice_two_plates : forall cf h src dst q pf rs plf pt rd plt,
+  nth_error h src = Some (CSlice pf rs) -> plate_at h pf plf ->
+  nth_error h dst = Some (CSlice pt rd) -> plate_at h pt plt -> pf <> pt ->
+  match p_to_p cf plf rs plt rd q with
+  | Ok (plf', plt') => exists a b h', h_transfer_ss cf src dst q h = (Ok (a, b), h') /\ ext_ex [] h h' /\ plate_at h' a plf' /\ plate_at h' b plt' /\
+                                      (length h <= a)%nat /\ (length h <= b)%nat
+  | Err e => exists h', h_transfer_ss cf src dst q h = (Err e, h') /\ ext_ex [] h h'
+  end.
+Proof. exact h_transfer_ss_refines_two_plates. Qed.
+Print Assumptions C04_refines_slice_to_slice_two_plates.
+Theorem C04_refines_slice_to_slice_same_plate : forall cf h src dst q p rs rd pl,
+  nth_error h src = Some (CSlice p rs) -> nth_error h dst = Some (CSlice p rd) -> plate_at h p pl ->
+  match p_to_p_same cf pl rs rd q with
+  | Ok pl' => exists a h', h_transfer_ss cf src dst q h = (Ok (a, a), h') /\ ext_ex [] h h' /\ plate_at h' a pl' /\ (length h <= a)%nat
+  | Err e => exists h', h_transfer_ss cf src dst q h = (Err e, h') /\ ext_ex [] h h'
+  end.
+Proof. exact h_transfer_ss_refines_same_plate. Qed.
+Print Assumptions C04_refines_slice_to_slice_same_plate.
+Theorem C04_refines_slice_remove : forall cf h t w p rg pl, nth_error h t = Some (CSlice p rg) -> plate_at h p pl ->
+  match premove cf pl rg w with
+  | Ok pl' => exists a h', h_remove_s cf t w h = (Ok a, h') /\ ext_ex [] h h' /\ plate_at h' a pl' /\ (length h <= a)%nat
+  | Err e => exists h', h_remove_s cf t w h = (Err e, h') /\ ext_ex [] h h'
+  end.
+Proof. exact h_remove_s_refines. Qed.
+Print Assumptions C04_refines_slice_remove.
+Theorem C04_refines_slice_fill_to : forall cf h t s q p rg pl, nth_error h t = Some (CSlice p rg) -> plate_at h p pl ->
+  match pfill_to cf pl rg s q with
+  | Ok pl' => exists a h', h_fill_s cf t s q h = (Ok a, h') /\ ext_ex [] h h' /\ plate_at h' a pl' /\ (length h <= a)%nat
+  | Err e => exists h', h_fill_s cf t s q h = (Err e, h') /\ ext_ex [] h h'
+  end.
+Proof. exact h_fill_s_refines. Qed.
+Print Assumptions C04_refines_slice_fill_to.
+Theorem C04_refines_container_ops : forall cf,
+  (forall w, sim1 (fun a => h_remove_c cf a w) (fun c => Ok (remove cf c w))) /\
+  (forall s q, sim1 (fun a => h_fill_c cf a s q) (fun c => fill_to cf c s q)) /\
+  (forall solute t solvent, sim1 (fun a => h_dilute cf a solute t solvent) (fun c => dilute cf c solute t solvent)).
+Proof. intros cf. split; [exact (sim_remove cf) | split; [exact (sim_fill cf) | exact (sim_dilute cf)]]. Qed.
+Print Assumptions C04_refines_container_ops.
